@@ -5,6 +5,7 @@ import (
 	"fmt"
 	"io"
 	"strings"
+	"sync"
 
 	"go.pennock.tech/tabular"
 	"go.pennock.tech/tabular/auto"
@@ -120,9 +121,18 @@ func c10Targets() []c10Target {
 		{"auto.Wrap(t,TextTable).RenderTo(w)", func(t tabular.Table) (string, error) { return viaTo(auto.Wrap(t, "TextTable").RenderTo) }},
 	}}
 	ts = append(ts, def)
+	c10RegisterOnce.Do(func() {
+		// decorations an application might register: the statement's "corresponding style string" for
+		// them is their exact name (decoration names are case sensitive; only sub-package names are not)
+		for i, name := range []string{"Acme-Mixed-Case", "UTF8-HEAVY", "acme.dotted.name", "Acme.Dotted", "acme space", "acme-plain"} {
+			d := decoration.Decoration{Horizontal: string(rune('a' + i)), Vertical: string(rune('A' + i)), CrossPiece: string(rune('0' + i))}
+			d.Populate()
+			decoration.RegisterDecorationName(name, d)
+		}
+	})
 	for _, name := range decoration.RegisteredDecorationNames() {
 		name := name
-		if strings.Contains(name, ".") {
+		if first := strings.ToLower(strings.SplitN(name, ".", 2)[0]); first == "csv" || first == "html" || first == "json" || first == "markdown" || first == "texttable" {
 			continue
 		}
 		ts = append(ts, c10Target{"text:" + name, []c10Route{
@@ -146,6 +156,8 @@ func c10Targets() []c10Target {
 	}
 	return ts
 }
+
+var c10RegisterOnce sync.Once
 
 var c10Wrappers = []struct {
 	name string
@@ -235,7 +247,7 @@ func init() {
 	register(&Prop{
 		ID:    "C10",
 		Level: "exploration",
-		Rule: "one random table (0-4 columns x 0-5 rows, ragged/zero-cell rows, separators, header anywhere, every row-building route, hostile texts, occasionally size-declaring or non-string items) per case; its construction history is replayed on a table from every creation path (tabular.New, csv/html/json/markdown/texttable.New, auto.New(style) for every listed style) and rendered to every target format (csv, html, json, markdown, text under the default and every registered decoration) through every route (package Render/RenderTo, Wrap().Render/RenderTo, auto.Render/RenderTo/Wrap with case variants, trailing sections and texttable. prefixes) plus 6 random wrapper nestings of depth 1-3 per format; each render uses a freshly built table. " +
+		Rule: "one random table (0-4 columns x 0-5 rows, ragged/zero-cell rows, separators, header anywhere, every row-building route, hostile texts, occasionally size-declaring or non-string items) per case; its construction history is replayed on a table from every creation path (tabular.New, csv/html/json/markdown/texttable.New, auto.New(style) for every listed style) and rendered to every target format (csv, html, json, markdown, text under the default and every registered decoration, including six application-registered ones with mixed-case, upper-cased-built-in, dotted and spaced names) through every route (package Render/RenderTo, Wrap().Render/RenderTo, auto.Render/RenderTo/Wrap with case variants, trailing sections and texttable. prefixes) plus 6 random wrapper nestings of depth 1-3 per format; each render uses a freshly built table. " +
 			"Every output and error status must equal the reference route (tabular.New + direct Wrap + Render). Distinct = distinct (shape, texts); non-trivial = at least one column and one body row.",
 		Assumptions: []string{
 			"equality only: which bytes are right is the business of C03-C08",
